@@ -1,5 +1,8 @@
 """Concurrency materialiser (C12): tasks calling one contracted function are stepped
-deterministically in the order a schedule dictates.
+deterministically in the order a schedule dictates.  Second version: a call goes through the function wrapper
+(precondition - body - postcondition), the public-method wrapper or the constructor wrapper of an object with an
+invariant (`kind`), and a schedule may create tasks: `{"fork": p, "calls": [...]}` copies task p's CURRENT context,
+`{"thread": true, "calls": [...]}` starts from an empty one.
 
 * async mode: each task is a coroutine driven by hand with `context.run(coro.send, None)` - exactly how
   asyncio runs a task step inside the task's own context; suspension points are awaits on an object
@@ -28,94 +31,159 @@ class _Yield:
 _CUR_SPEC = contextvars.ContextVar("verif_c12_current_call")
 
 
-def _mk_methods(case):
-    """Variant: every function id is an OBJECT of a class with an invariant; a call is a public-method call on it.
-    The invariant's truth for the current call is read from a context variable (each task has its own context)."""
-    state = {}
-    fns = {}
+def _all_calls(case):
+    for t in case["tasks"]:
+        yield from t["calls"]
+    for op in case["sched"]:
+        if isinstance(op, dict):
+            yield from op["calls"]
+
+
+def _kind(spec):
+    return spec.get("kind", "function")
+
+
+class _Call:
+    """what the contracts of the call in flight read: its spec and whether the body has run"""
+
+    def __init__(self, spec):
+        self.spec = spec
+        self.after = False
+
+
+def _mk_objects(case, state, fns):
+    """Every key of kind method / ctor is an OBJECT of a class with an invariant; a `method` call is a public-method
+    call on it, a `ctor` call runs its `__init__` again (through the constructor wrapper, which marks the instance).
+    The invariant's truth and suspension points for the call in flight are read from a context variable (each task
+    has its own context): before the body `preTruthy` / `condYields`, after it `postTruthy` / `postYields`."""
     is_async = case["mode"] == "async"
 
     def inv(self):
-        spec = _CUR_SPEC.get(None)
-        if spec is None:
+        call = _CUR_SPEC.get(None)
+        if call is None:
             return True
+        spec = call.spec
+        n = spec.get("postYields", 0) if call.after else spec["condYields"]
         if not is_async:
-            for _ in range(spec["condYields"]):
+            for _ in range(n):
                 state["pause"]()
-        return spec["preTruthy"]
+        return spec.get("postTruthy", True) if call.after else spec["preTruthy"]
+
+    def err(self):
+        call = _CUR_SPEC.get(None)
+        return ValueError("postViolation" if call is not None and call.after else "violation")
 
     if is_async:
-        @icontract.invariant(inv, error=ValueError("violation"))
+        @icontract.invariant(inv, error=err)
         class K:
-            def __init__(self):
+            def __init__(self, spec=None):
+                call = _CUR_SPEC.get(None)
+                if call is not None:
+                    # constructors cannot await: the body's suspension points are those of a thread only
+                    call.after = True
                 self.x = 1
 
             async def m(self, spec):
                 for _ in range(spec["bodyYields"]):
                     await _Yield()
+                _CUR_SPEC.get().after = True
                 return "done"
     else:
-        @icontract.invariant(inv, error=ValueError("violation"))
+        @icontract.invariant(inv, error=err)
         class K:
-            def __init__(self):
+            def __init__(self, spec=None):
+                call = _CUR_SPEC.get(None)
+                if call is not None:
+                    for _ in range(spec["bodyYields"]):
+                        state["pause"]()
+                    call.after = True
                 self.x = 1
 
             def m(self, spec):
                 for _ in range(spec["bodyYields"]):
                     state["pause"]()
+                _CUR_SPEC.get().after = True
                 return "done"
 
-    for fid in sorted(set(c["f"] for t in case["tasks"] for c in t["calls"])):
+    keys = sorted(set(c["f"] for c in _all_calls(case) if _kind(c) != "function" or case.get("asMethod")))
+    for fid in keys:
         obj = K()
 
-        def call(spec, obj=obj):
-            _CUR_SPEC.set(spec)
-            return obj.m(spec)
+        if is_async:
+            def call(spec, obj=obj):
+                _CUR_SPEC.set(_Call(spec))
+                if _kind(spec) == "ctor":
+                    async def ctor():
+                        return obj.__init__(spec)
+                    return ctor()
+                return obj.m(spec)
+        else:
+            def call(spec, obj=obj):
+                _CUR_SPEC.set(_Call(spec))
+                if _kind(spec) == "ctor":
+                    return obj.__init__(spec)
+                return obj.m(spec)
 
-        fns[fid] = call
-    return fns, state
+        fns[("obj", fid)] = call
 
 
 def _mk(case):
-    """The contracted functions (one per function id) for the async / sync flavour."""
-    if case.get("asMethod"):
-        return _mk_methods(case)
+    """The contracted functions (one per function key) and objects (one per instance key) for the async / sync flavour;
+    `fns[(family, key)]` makes the call."""
     state = {}
     fns = {}
     is_async = case["mode"] == "async"
-    for fid in sorted(set(c["f"] for t in case["tasks"] for c in t["calls"])):
+    _mk_objects(case, state, fns)
+    for fid in sorted(set(c["f"] for c in _all_calls(case) if _kind(c) == "function" and not case.get("asMethod"))):
         if is_async:
             async def cond(spec, fid=fid):
                 for _ in range(spec["condYields"]):
                     await _Yield()
                 return spec["preTruthy"]
 
+            async def post(spec, fid=fid):
+                for _ in range(spec.get("postYields", 0)):
+                    await _Yield()
+                return spec.get("postTruthy", True)
+
             async def body(spec, fid=fid):
                 for _ in range(spec["bodyYields"]):
                     await _Yield()
                 return "done"
-
-            body.__name__ = "F%d" % fid
-            # every call also captures a per-call snapshot and checks it against the very call afterwards
-            g = icontract.ensure(lambda spec, OLD: OLD.tag is spec, error=ValueError("violation: OLD belongs to another call"))(body)
-            g = icontract.snapshot(lambda spec: spec, name="tag")(g)
-            fns[fid] = icontract.require(cond, error=ValueError("violation"))(g)
         else:
             def cond(spec, fid=fid):
                 for _ in range(spec["condYields"]):
                     state["pause"]()
                 return spec["preTruthy"]
 
+            def post(spec, fid=fid):
+                for _ in range(spec.get("postYields", 0)):
+                    state["pause"]()
+                return spec.get("postTruthy", True)
+
             def body(spec, fid=fid):
                 for _ in range(spec["bodyYields"]):
                     state["pause"]()
                 return "done"
 
-            body.__name__ = "F%d" % fid
-            g = icontract.ensure(lambda spec, OLD: OLD.tag is spec, error=ValueError("violation: OLD belongs to another call"))(body)
-            g = icontract.snapshot(lambda spec: spec, name="tag")(g)
-            fns[fid] = icontract.require(cond, error=ValueError("violation"))(g)
+        body.__name__ = "F%d" % fid
+        # every call also captures a per-call snapshot and checks it against the very call afterwards
+        g = icontract.ensure(post, error=ValueError("postViolation"))(body)
+        g = icontract.ensure(lambda spec, OLD: OLD.tag is spec, error=ValueError("violation: OLD belongs to another call"))(g)
+        g = icontract.snapshot(lambda spec: spec, name="tag")(g)
+        fns[("fn", fid)] = icontract.require(cond, error=ValueError("violation"))(g)
     return fns, state
+
+
+def _callee(case, fns, spec):
+    if case.get("asMethod") or _kind(spec) != "function":
+        return fns[("obj", spec["f"])]
+    return fns[("fn", spec["f"])]
+
+
+def _verdict(exc):
+    msg = str(exc)
+    return msg if msg in ("violation", "postViolation") else "error: " + msg
 
 
 def _contexts(case, fns):
@@ -123,8 +191,10 @@ def _contexts(case, fns):
     parent = contextvars.copy_context()
     before = [parent.run(contextvars.copy_context) for _ in case["tasks"]]
     # the parent's first checked call (a satisfied, non-suspending one)
-    warm = {"f": 0, "preTruthy": True, "condYields": 0, "bodyYields": 0}
     any_f = next(iter(fns.values()))
+    first = next(_all_calls(case))
+    warm = {"f": first["f"], "preTruthy": True, "condYields": 0, "bodyYields": 0, "kind": "method" if _kind(first) == "ctor" else _kind(first)}
+    any_f = _callee(case, fns, warm)
     if case["mode"] == "async":
         def warmup():
             co = any_f(warm)
@@ -152,37 +222,57 @@ def _contexts(case, fns):
 def run(case):
     fns, state = _mk(case)
     ctxs = _contexts(case, fns)
-    n = len(case["tasks"])
-    verdicts = [[] for _ in range(n)]
+    programs = [t["calls"] for t in case["tasks"]]
+    verdicts = [[] for _ in programs]
+    inherit = list(case["inherit"])
+
+    def spawn_ctx(op):
+        """the context of a task created by a schedule operation: a COPY of the parent's current context
+        (asyncio.create_task / to_thread / copy_context().run) or an empty one (a plain thread)"""
+        if "fork" in op and op["fork"] < len(ctxs):
+            ensure_ctx(op["fork"])
+            return ctxs[op["fork"]].copy()
+        return contextvars.Context()
+
+    def ensure_ctx(i):
+        if ctxs[i] is None:
+            j = int(inherit[i].split(":")[1])
+            ensure_ctx(j)
+            ctxs[i] = ctxs[j].copy()       # what asyncio.create_task / to_thread do at the spawning point
+
     if case["mode"] == "async":
         def mk_task(i):
             async def task():
-                for spec in case["tasks"][i]["calls"]:
+                for spec in programs[i]:
                     try:
-                        await fns[spec["f"]](spec)
+                        await _callee(case, fns, spec)(spec)
                         verdicts[i].append("returned")
-                    except ValueError:
-                        verdicts[i].append("violation")
+                    except ValueError as exc:
+                        verdicts[i].append(_verdict(exc))
                     await _Yield()      # a task boundary between calls
             return task()
 
-        coros = [mk_task(i) for i in range(n)]
-        done = [False] * n
-        def ensure_ctx(i):
-            if ctxs[i] is None:
-                j = int(case["inherit"][i].split(":")[1])
-                ensure_ctx(j)
-                ctxs[i] = ctxs[j].copy()       # what asyncio.create_task / to_thread do at the spawning point
+        coros = [mk_task(i) for i in range(len(programs))]
+        done = [False] * len(programs)
 
-        for i in case["sched"]:
-            if i >= n or done[i]:
+        for op in case["sched"]:
+            if isinstance(op, dict):
+                ctxs.append(spawn_ctx(op))
+                inherit.append("op")
+                programs.append(op["calls"])
+                verdicts.append([])
+                coros.append(mk_task(len(programs) - 1))
+                done.append(False)
+                continue
+            i = op
+            if i >= len(programs) or done[i]:
                 continue
             ensure_ctx(i)
             try:
                 ctxs[i].run(coros[i].send, None)
             except StopIteration:
                 done[i] = True
-        for i in range(n):
+        for i in range(len(programs)):
             ensure_ctx(i)
             # let every task finish alone (its remaining steps in any order do not matter for the verdicts so far)
             while not done[i]:
@@ -192,9 +282,9 @@ def run(case):
                     done[i] = True
         return {"verdicts": verdicts}
     # threads: a baton passed by events
-    turn = [threading.Event() for _ in range(n)]
+    turn = [threading.Event() for _ in programs]
     back = threading.Event()
-    finished = [False] * n
+    finished = [False] * len(programs)
     cur = {"i": None}
 
     def pause():
@@ -210,35 +300,62 @@ def run(case):
         turn[i].wait()
         turn[i].clear()
         cur["i"] = i
-        for spec in case["tasks"][i]["calls"]:
+        for spec in programs[i]:
             try:
-                fns[spec["f"]](spec)
+                _callee(case, fns, spec)(spec)
                 verdicts[i].append("returned")
-            except ValueError:
-                verdicts[i].append("violation")
+            except ValueError as exc:
+                verdicts[i].append(_verdict(exc))
             pause()
         finished[i] = True
         back.set()
 
     threads = []
-    for i in range(n):
-        if case["inherit"][i] == "fresh":
+
+    forked_from = set(op["fork"] for op in case["sched"] if isinstance(op, dict) and "fork" in op)
+
+    def start(i):
+        # a plain thread starts with an empty context of its own; it runs inside an explicit (empty) Context object only
+        # when a later operation has to copy its current context from outside
+        if inherit[i] in ("fresh", "op-thread") and i not in forked_from:
             th = threading.Thread(target=worker, args=(i,), daemon=True)
         else:
+            ensure_ctx(i)
             th = threading.Thread(target=ctxs[i].run, args=(worker, i), daemon=True)
         th.start()
         threads.append(th)
-    order = list(case["sched"]) + [i for i in range(n) for _ in range(200)]
-    for i in order:
-        if i >= n or finished[i]:
-            continue
+
+    for i in range(len(programs)):
+        if inherit[i].startswith("spawn_in_body"):
+            raise common.Infra("spawn_in_body inheritance is an async-mode shape; use a fork operation for threads")
+        start(i)
+
+    def give(i):
+        if i >= len(programs) or finished[i]:
+            return
         back.clear()
         cur["i"] = i
         turn[i].set()
         if not back.wait(timeout=10):
             raise common.Infra("thread schedule stuck")
-        if all(finished):
-            break
+
+    for op in case["sched"]:
+        if isinstance(op, dict):
+            # the scheduler copies the parent's context while the parent thread is parked at a suspension point
+            ctxs.append(spawn_ctx(op))
+            inherit.append("op" if "fork" in op else "op-thread")
+            programs.append(op["calls"])
+            verdicts.append([])
+            turn.append(threading.Event())
+            finished.append(False)
+            start(len(programs) - 1)
+            continue
+        give(op)
+    for i in range(len(programs)):
+        for _ in range(400):
+            if finished[i]:
+                break
+            give(i)
     for th in threads:
         th.join(timeout=5)
     return {"verdicts": verdicts}
